@@ -1,5 +1,801 @@
 package main
 
+// The shared-state access table for C09.
+//
+// For the packages protocol, transport and security this extracts one row per
+// access to shared state: which role performs it (the handler goroutine of a
+// tunnel, or the relay goroutine started with `go`), which resource it touches
+// (package-level variable, field of Tunnel / Gateway / Processor, or the pseudo
+// resources "client writer" / "client reader" behind the Transport interface),
+// whether it writes, which mutexes are held (lexically, intersected over all
+// call paths) and whether it happens before the relay goroutine is started.
+
+import (
+	"bytes"
+	"fmt"
+	"go/ast"
+	"go/token"
+	"go/types"
+	"path/filepath"
+	"sort"
+	"strings"
+)
+
+const modPath = "github.com/bolkedebruin/rdpgw/"
+
+type srcImporter struct {
+	repo  string
+	cache map[string]*pkg
+	fake  fakeImporter
+}
+
+func (s *srcImporter) Import(path string) (*types.Package, error) {
+	if strings.HasPrefix(path, modPath) {
+		p, err := s.load(path)
+		if err == nil && p.tp != nil {
+			return p.tp, nil
+		}
+	}
+	return s.fake.Import(path)
+}
+
+func (s *srcImporter) load(path string) (*pkg, error) {
+	if p, ok := s.cache[path]; ok {
+		return p, nil
+	}
+	dir := filepath.Join(s.repo, strings.TrimPrefix(path, modPath))
+	p, err := loadWith(dir, s)
+	if err != nil {
+		return nil, err
+	}
+	s.cache[path] = p
+	return p, nil
+}
+
+type accessRow struct {
+	role   int // 0 handler, 1 relay
+	res    string
+	global bool
+	write  bool
+	locks  []string
+	pre    bool
+	where  string
+}
+
+type funcInfo struct {
+	obj   *types.Func
+	decl  *ast.FuncDecl
+	lit   *ast.FuncLit
+	p     *pkg
+	name  string
+	calls []callSite
+	accs  []rawAccess
+	spawn []spawnSite
+}
+
+type callSite struct {
+	callee   string
+	pos      token.Pos
+	locks    map[string]bool
+	deferred bool
+	isGo     bool
+}
+
+type spawnSite struct {
+	callee string
+	pos    token.Pos
+}
+
+type rawAccess struct {
+	res      string
+	global   bool
+	write    bool
+	locks    map[string]bool
+	pos      token.Pos
+	deferred bool
+}
+
+func copySet(m map[string]bool) map[string]bool {
+	o := map[string]bool{}
+	for k := range m {
+		o[k] = true
+	}
+	return o
+}
+
 func buildAccessTable(repo string) ([]byte, []string) {
-	return []byte("/- GENERATED placeholder -/\n"), nil
+	var notes []string
+	imp := &srcImporter{repo: repo, cache: map[string]*pkg{}, fake: fakeImporter{defImporter()}}
+	var pkgs []*pkg
+	for _, sub := range []string{"cmd/rdpgw/transport", "cmd/rdpgw/protocol", "cmd/rdpgw/security"} {
+		p, err := imp.load(modPath + sub)
+		if err != nil {
+			notes = append(notes, "access table: cannot load "+sub+": "+err.Error())
+			continue
+		}
+		pkgs = append(pkgs, p)
+	}
+	funcs := map[string]*funcInfo{}
+	sharedTypes := map[string]bool{"Tunnel": true, "Gateway": true, "Processor": true}
+	whitelistInit := map[string]bool{"cache": true, "prometheus": true, "websocket": true, "sync": true}
+	whitelistedVar := map[string]bool{}
+	lockVars := map[string]bool{}
+
+	// package-level variables: whitelist internally synchronised ones, find mutexes
+	for _, p := range pkgs {
+		for _, f := range p.files {
+			for _, d := range f.Decls {
+				gd, ok := d.(*ast.GenDecl)
+				if !ok || gd.Tok != token.VAR {
+					continue
+				}
+				for _, sp := range gd.Specs {
+					vs := sp.(*ast.ValueSpec)
+					for i, nm := range vs.Names {
+						q := p.tp.Name() + "." + nm.Name
+						if vs.Type != nil {
+							ts := exprString(vs.Type)
+							if strings.HasPrefix(ts, "sync.") {
+								lockVars[q] = true
+								continue
+							}
+						}
+						if i < len(vs.Values) {
+							pk := rootPkgOf(vs.Values[i])
+							if whitelistInit[pk] {
+								whitelistedVar[q] = true
+							}
+						}
+					}
+				}
+			}
+		}
+	}
+
+	// index functions
+	for _, p := range pkgs {
+		for _, f := range p.files {
+			for _, d := range f.Decls {
+				fd, ok := d.(*ast.FuncDecl)
+				if !ok || fd.Body == nil {
+					continue
+				}
+				obj, _ := p.info.Defs[fd.Name].(*types.Func)
+				if obj == nil {
+					continue
+				}
+				fi := &funcInfo{obj: obj, decl: fd, p: p, name: funcKey(obj)}
+				funcs[fi.name] = fi
+			}
+		}
+	}
+
+	// analyse bodies
+	for _, fi := range funcs {
+		analyseBody(fi, fi.decl.Body, funcs, sharedTypes, whitelistedVar, lockVars)
+	}
+
+	// roles
+	handlerRoots := []string{}
+	for k := range funcs {
+		if strings.HasSuffix(k, "Gateway.HandleGatewayProtocol") {
+			handlerRoots = append(handlerRoots, k)
+		}
+		if strings.HasPrefix(k, "security.Check") {
+			handlerRoots = append(handlerRoots, k)
+		}
+	}
+	sort.Strings(handlerRoots)
+	reach := func(roots []string, followGo bool) (map[string]bool, []string) {
+		seen := map[string]bool{}
+		var spawned []string
+		var walk func(string)
+		walk = func(k string) {
+			if seen[k] {
+				return
+			}
+			fi := funcs[k]
+			if fi == nil {
+				return
+			}
+			seen[k] = true
+			for _, c := range fi.calls {
+				if c.isGo {
+					spawned = append(spawned, c.callee)
+					continue
+				}
+				walk(c.callee)
+			}
+		}
+		for _, r := range roots {
+			walk(r)
+		}
+		return seen, spawned
+	}
+	handlerFns, spawned := reach(handlerRoots, false)
+	relayFns, _ := reach(spawned, false)
+	if len(spawned) == 0 {
+		notes = append(notes, "access table: no `go` statement reachable from the handler (relay role empty)")
+	}
+
+	// entry lock sets: intersection over call sites, roots start empty
+	allLocks := map[string]bool{}
+	for _, fi := range funcs {
+		for _, c := range fi.calls {
+			for l := range c.locks {
+				allLocks[l] = true
+			}
+		}
+		for _, a := range fi.accs {
+			for l := range a.locks {
+				allLocks[l] = true
+			}
+		}
+	}
+	entry := map[string]map[string]bool{}
+	isRoot := map[string]bool{}
+	for _, r := range handlerRoots {
+		isRoot[r] = true
+	}
+	for _, s := range spawned {
+		isRoot[s] = true
+	}
+	for k := range funcs {
+		if isRoot[k] {
+			entry[k] = map[string]bool{}
+		} else {
+			entry[k] = copySet(allLocks)
+		}
+	}
+	for changed := true; changed; {
+		changed = false
+		for k, fi := range funcs {
+			if !handlerFns[k] && !relayFns[k] {
+				continue
+			}
+			for _, c := range fi.calls {
+				if c.isGo || isRoot[c.callee] || funcs[c.callee] == nil {
+					continue
+				}
+				held := copySet(entry[k])
+				for l := range c.locks {
+					held[l] = true
+				}
+				cur := entry[c.callee]
+				for l := range cur {
+					if !held[l] {
+						delete(cur, l)
+						changed = true
+					}
+				}
+			}
+		}
+	}
+
+	// "pre": handler accesses that happen before the relay goroutine exists
+	spawnFns := map[string]bool{}
+	for k, fi := range funcs {
+		for _, c := range fi.calls {
+			if c.isGo && handlerFns[k] {
+				spawnFns[k] = true
+			}
+		}
+	}
+	leadsToSpawn := map[string]bool{}
+	var leads func(k string, seen map[string]bool) bool
+	leads = func(k string, seen map[string]bool) bool {
+		if spawnFns[k] {
+			return true
+		}
+		if seen[k] {
+			return false
+		}
+		seen[k] = true
+		fi := funcs[k]
+		if fi == nil {
+			return false
+		}
+		for _, c := range fi.calls {
+			if !c.isGo && leads(c.callee, seen) {
+				return true
+			}
+		}
+		return false
+	}
+	for k := range funcs {
+		leadsToSpawn[k] = leads(k, map[string]bool{})
+	}
+	// position of the first call that leads to the spawn, per function
+	spawnCallPos := map[string]token.Pos{}
+	for k, fi := range funcs {
+		if spawnFns[k] || !leadsToSpawn[k] {
+			continue
+		}
+		best := token.NoPos
+		for _, c := range fi.calls {
+			if !c.isGo && !c.deferred && leadsToSpawn[c.callee] {
+				if best == token.NoPos || c.pos < best {
+					best = c.pos
+				}
+			}
+		}
+		spawnCallPos[k] = best
+	}
+	// preOnly(f): f does not lead to the spawn and every call site of f is in a pre position
+	preOnly := map[string]bool{}
+	for k := range funcs {
+		preOnly[k] = handlerFns[k] && !leadsToSpawn[k] && !isRoot[k]
+	}
+	for changed := true; changed; {
+		changed = false
+		for k, fi := range funcs {
+			if !handlerFns[k] {
+				continue
+			}
+			for _, c := range fi.calls {
+				if c.isGo || !preOnly[c.callee] {
+					continue
+				}
+				sitePre := false
+				if preOnly[k] {
+					sitePre = true
+				} else if p, ok := spawnCallPos[k]; ok && p != token.NoPos && c.pos < p && !c.deferred {
+					sitePre = true
+				}
+				if !sitePre {
+					preOnly[c.callee] = false
+					changed = true
+				}
+			}
+		}
+	}
+
+	var rows []accessRow
+	emit := func(role int, k string) {
+		fi := funcs[k]
+		for _, a := range fi.accs {
+			held := copySet(entry[k])
+			for l := range a.locks {
+				held[l] = true
+			}
+			var ls []string
+			for l := range held {
+				ls = append(ls, l)
+			}
+			sort.Strings(ls)
+			pre := false
+			if role == 0 {
+				if preOnly[k] {
+					pre = true
+				} else if p, ok := spawnCallPos[k]; ok && p != token.NoPos && a.pos < p && !a.deferred {
+					pre = true
+				}
+			}
+			pos := fi.p.fset.Position(a.pos)
+			rows = append(rows, accessRow{role: role, res: a.res, global: a.global, write: a.write, locks: ls, pre: pre,
+				where: fmt.Sprintf("%s (%s:%d)", k, filepath.Base(pos.Filename), pos.Line)})
+		}
+	}
+	var hk, rk []string
+	for k := range handlerFns {
+		hk = append(hk, k)
+	}
+	for k := range relayFns {
+		rk = append(rk, k)
+	}
+	sort.Strings(hk)
+	sort.Strings(rk)
+	for _, k := range hk {
+		emit(0, k)
+	}
+	for _, k := range rk {
+		emit(1, k)
+	}
+	// deduplicate
+	seenRow := map[string]bool{}
+	var uniq []accessRow
+	for _, r := range rows {
+		key := fmt.Sprintf("%d|%s|%v|%v|%v|%v", r.role, r.res, r.global, r.write, r.locks, r.pre)
+		if seenRow[key] {
+			continue
+		}
+		seenRow[key] = true
+		uniq = append(uniq, r)
+	}
+	rows = uniq
+
+	// informative: the pairs that violate the discipline (the authoritative check is the Lean theorem)
+	lockScopeGlobal := func(l string) bool { return !strings.Contains(l, ".") || strings.HasPrefix(l, "Gateway.") }
+	for i, a := range rows {
+		for j, bb := range rows {
+			if j < i || a.res != bb.res || !(a.write || bb.write) {
+				continue
+			}
+			may := a.global || (a.role != bb.role && !a.pre && !bb.pre)
+			if !may {
+				continue
+			}
+			prot := false
+			for _, la := range a.locks {
+				for _, lb := range bb.locks {
+					if la == lb && (lockScopeGlobal(la) || !a.global) {
+						prot = true
+					}
+				}
+			}
+			if !prot {
+				notes = append(notes, fmt.Sprintf("access table: UNPROTECTED %s: [%s write=%v locks=%v] vs [%s write=%v locks=%v]", a.res, a.where, a.write, a.locks, bb.where, bb.write, bb.locks))
+			}
+		}
+	}
+
+	// number resources and locks
+	resID := map[string]int{}
+	lockID := map[string]int{}
+	var resNames, lockNames []string
+	for _, r := range rows {
+		if _, ok := resID[r.res]; !ok {
+			resID[r.res] = len(resNames)
+			resNames = append(resNames, r.res)
+		}
+		for _, l := range r.locks {
+			if _, ok := lockID[l]; !ok {
+				lockID[l] = len(lockNames)
+				lockNames = append(lockNames, l)
+			}
+		}
+	}
+	var b bytes.Buffer
+	b.WriteString("/- GENERATED by harness/extract (access_impl.go) from protocol, transport and security — do not edit -/\n\n")
+	b.WriteString("import Rdpgw.Model.Access\n\nnamespace Rdpgw.Generated.Access\n\nopen Rdpgw.Access\n\n")
+	b.WriteString("/-- resources: ")
+	for i, n := range resNames {
+		fmt.Fprintf(&b, "%d=%s ", i, n)
+	}
+	b.WriteString("\n    locks: ")
+	for i, n := range lockNames {
+		fmt.Fprintf(&b, "%d=%s ", i, n)
+	}
+	b.WriteString("-/\ndef table : List Access := [\n")
+	for i, r := range rows {
+		sc := ".perTunnel"
+		if r.global {
+			sc = ".global"
+		}
+		var ls []string
+		for _, l := range r.locks {
+			lsc := ".perTunnel"
+			if !strings.Contains(l, ".") || strings.HasPrefix(l, "Gateway.") || strings.HasPrefix(l, "pkg:") {
+				lsc = ".global"
+			}
+			ls = append(ls, fmt.Sprintf("⟨%d, %s⟩", lockID[l], lsc))
+		}
+		sep := ","
+		if i == len(rows)-1 {
+			sep = ""
+		}
+		fmt.Fprintf(&b, "  ⟨%d, %d, %s, %v, [%s], %v⟩%s  -- %s %s\n", r.role, resID[r.res], sc, r.write, strings.Join(ls, ", "), r.pre, sep, r.res, r.where)
+	}
+	b.WriteString("]\n\n")
+	fmt.Fprintf(&b, "def resourceNames : List String := [%s]\n", quoteList(resNames))
+	fmt.Fprintf(&b, "def lockNames : List String := [%s]\n", quoteList(lockNames))
+	var wl []string
+	for k := range whitelistedVar {
+		wl = append(wl, k)
+	}
+	sort.Strings(wl)
+	fmt.Fprintf(&b, "def whitelisted : List String := [%s]\n", quoteList(wl))
+	b.WriteString("\nend Rdpgw.Generated.Access\n")
+	notes = append(notes, fmt.Sprintf("access table: %d rows, %d resources, %d locks; handler functions %d, relay functions %d; internally synchronised (not tabled): %s", len(rows), len(resNames), len(lockNames), len(handlerFns), len(relayFns), strings.Join(wl, " ")))
+	return b.Bytes(), notes
+}
+
+func quoteList(ss []string) string {
+	var q []string
+	for _, s := range ss {
+		q = append(q, leanStr(s))
+	}
+	return strings.Join(q, ", ")
+}
+
+func funcKey(f *types.Func) string {
+	sig, _ := f.Type().(*types.Signature)
+	if sig != nil && sig.Recv() != nil {
+		t := sig.Recv().Type()
+		if p, ok := t.(*types.Pointer); ok {
+			t = p.Elem()
+		}
+		if n, ok := t.(*types.Named); ok {
+			return f.Pkg().Name() + "." + n.Obj().Name() + "." + f.Name()
+		}
+	}
+	return f.Pkg().Name() + "." + f.Name()
+}
+
+func exprString(e ast.Expr) string {
+	switch x := e.(type) {
+	case *ast.Ident:
+		return x.Name
+	case *ast.SelectorExpr:
+		return exprString(x.X) + "." + x.Sel.Name
+	case *ast.StarExpr:
+		return "*" + exprString(x.X)
+	}
+	return "?"
+}
+
+func rootPkgOf(e ast.Expr) string {
+	switch x := e.(type) {
+	case *ast.CallExpr:
+		return rootPkgOf(x.Fun)
+	case *ast.SelectorExpr:
+		if id, ok := x.X.(*ast.Ident); ok {
+			return id.Name
+		}
+		return rootPkgOf(x.X)
+	case *ast.CompositeLit:
+		return rootPkgOf(x.Type)
+	case *ast.UnaryExpr:
+		return rootPkgOf(x.X)
+	}
+	return ""
+}
+
+// analyseBody walks a function body in statement order, tracking lexically held locks.
+func analyseBody(fi *funcInfo, body *ast.BlockStmt, funcs map[string]*funcInfo, shared map[string]bool, whitelisted, lockVars map[string]bool) {
+	info := fi.p.info
+	pkgName := fi.p.tp.Name()
+
+	// lockName returns the identity of a mutex expression, "" if it is not one we know
+	lockName := func(e ast.Expr) string {
+		switch x := e.(type) {
+		case *ast.Ident:
+			if v, ok := info.Uses[x].(*types.Var); ok && v.Parent() == v.Pkg().Scope() {
+				return v.Name()
+			}
+		case *ast.SelectorExpr:
+			if sel, ok := info.Selections[x]; ok && sel.Kind() == types.FieldVal {
+				t := sel.Recv()
+				if p, ok := t.(*types.Pointer); ok {
+					t = p.Elem()
+				}
+				if n, ok := t.(*types.Named); ok {
+					return n.Obj().Name() + "." + x.Sel.Name
+				}
+			}
+		}
+		return ""
+	}
+
+	var walkExpr func(e ast.Expr, held map[string]bool, write bool, deferred bool)
+	var walkStmts func(list []ast.Stmt, held map[string]bool, deferred bool)
+
+	record := func(res string, global, write bool, held map[string]bool, pos token.Pos, deferred bool) {
+		fi.accs = append(fi.accs, rawAccess{res: res, global: global, write: write, locks: copySet(held), pos: pos, deferred: deferred})
+	}
+
+	resolveCall := func(ce *ast.CallExpr) (string, bool) {
+		switch f := ce.Fun.(type) {
+		case *ast.Ident:
+			if fn, ok := info.Uses[f].(*types.Func); ok {
+				return funcKey(fn), true
+			}
+		case *ast.SelectorExpr:
+			if sel, ok := info.Selections[f]; ok {
+				if fn, ok := sel.Obj().(*types.Func); ok {
+					return funcKey(fn), true
+				}
+			}
+			if fn, ok := info.Uses[f.Sel].(*types.Func); ok {
+				return funcKey(fn), true
+			}
+		}
+		return "", false
+	}
+
+	handleCall := func(ce *ast.CallExpr, held map[string]bool, deferred, isGo bool) {
+		// builtin delete(m, k) writes m
+		if id, ok := ce.Fun.(*ast.Ident); ok && id.Name == "delete" && len(ce.Args) > 0 {
+			walkExpr(ce.Args[0], held, true, deferred)
+			for _, a := range ce.Args[1:] {
+				walkExpr(a, held, false, deferred)
+			}
+			return
+		}
+		if se, ok := ce.Fun.(*ast.SelectorExpr); ok {
+			switch se.Sel.Name {
+			case "WritePacket":
+				record("client writer", false, true, held, ce.Pos(), deferred)
+			case "ReadPacket":
+				record("client reader", false, true, held, ce.Pos(), deferred)
+			}
+			// the receiver expression is read
+			walkExpr(se.X, held, false, deferred)
+		}
+		if k, ok := resolveCall(ce); ok {
+			if _, local := funcs[k]; local {
+				fi.calls = append(fi.calls, callSite{callee: k, pos: ce.Pos(), locks: copySet(held), deferred: deferred, isGo: isGo})
+			}
+		}
+		for _, a := range ce.Args {
+			walkExpr(a, held, false, deferred)
+		}
+	}
+
+	walkExpr = func(e ast.Expr, held map[string]bool, write bool, deferred bool) {
+		switch x := e.(type) {
+		case nil:
+		case *ast.Ident:
+			if v, ok := info.Uses[x].(*types.Var); ok && v.Pkg() != nil && v.Parent() == v.Pkg().Scope() {
+				q := v.Pkg().Name() + "." + v.Name()
+				if whitelisted[q] || lockVars[q] {
+					return
+				}
+				record(q, true, write, held, x.Pos(), deferred)
+			}
+		case *ast.SelectorExpr:
+			if sel, ok := info.Selections[x]; ok && sel.Kind() == types.FieldVal {
+				t := sel.Recv()
+				if p, ok := t.(*types.Pointer); ok {
+					t = p.Elem()
+				}
+				if n, ok := t.(*types.Named); ok && shared[n.Obj().Name()] && n.Obj().Pkg() != nil && n.Obj().Pkg().Name() == "protocol" {
+					ft := sel.Obj().Type().String()
+					if !strings.HasPrefix(ft, "sync.") {
+						record(n.Obj().Name()+"."+x.Sel.Name, n.Obj().Name() == "Gateway", write, held, x.Pos(), deferred)
+					}
+				}
+				walkExpr(x.X, held, false, deferred)
+				return
+			}
+			// qualified identifier pkg.Var
+			if v, ok := info.Uses[x.Sel].(*types.Var); ok && v.Pkg() != nil && v.Parent() == v.Pkg().Scope() && strings.HasPrefix(v.Pkg().Path(), modPath) {
+				q := v.Pkg().Name() + "." + v.Name()
+				if !whitelisted[q] && !lockVars[q] {
+					record(q, true, write, held, x.Pos(), deferred)
+				}
+				return
+			}
+			walkExpr(x.X, held, false, deferred)
+		case *ast.IndexExpr:
+			walkExpr(x.X, held, write, deferred) // writing m[k] writes m
+			walkExpr(x.Index, held, false, deferred)
+		case *ast.StarExpr:
+			walkExpr(x.X, held, write, deferred)
+		case *ast.UnaryExpr:
+			walkExpr(x.X, held, write || x.Op == token.AND, deferred)
+		case *ast.BinaryExpr:
+			walkExpr(x.X, held, false, deferred)
+			walkExpr(x.Y, held, false, deferred)
+		case *ast.ParenExpr:
+			walkExpr(x.X, held, write, deferred)
+		case *ast.CallExpr:
+			handleCall(x, held, deferred, false)
+		case *ast.CompositeLit:
+			for _, el := range x.Elts {
+				if kv, ok := el.(*ast.KeyValueExpr); ok {
+					walkExpr(kv.Value, held, false, deferred)
+				} else {
+					walkExpr(el, held, false, deferred)
+				}
+			}
+		case *ast.TypeAssertExpr:
+			walkExpr(x.X, held, false, deferred)
+		case *ast.SliceExpr:
+			walkExpr(x.X, held, write, deferred)
+			walkExpr(x.Low, held, false, deferred)
+			walkExpr(x.High, held, false, deferred)
+		case *ast.FuncLit:
+			// a closure: analysed in place (callbacks run on the goroutine that calls them)
+			walkStmts(x.Body.List, copySet(held), deferred)
+		case *ast.KeyValueExpr:
+			walkExpr(x.Value, held, false, deferred)
+		}
+	}
+
+	var walkStmt func(s ast.Stmt, held map[string]bool, deferred bool)
+	walkStmt = func(s ast.Stmt, held map[string]bool, deferred bool) {
+		switch x := s.(type) {
+		case nil:
+		case *ast.ExprStmt:
+			if ce, ok := x.X.(*ast.CallExpr); ok {
+				if se, ok := ce.Fun.(*ast.SelectorExpr); ok && (se.Sel.Name == "Lock" || se.Sel.Name == "RLock") {
+					if ln := lockName(se.X); ln != "" {
+						held[ln] = true
+						return
+					}
+				}
+				if se, ok := ce.Fun.(*ast.SelectorExpr); ok && (se.Sel.Name == "Unlock" || se.Sel.Name == "RUnlock") {
+					if ln := lockName(se.X); ln != "" {
+						delete(held, ln)
+						return
+					}
+				}
+			}
+			walkExpr(x.X, held, false, deferred)
+		case *ast.DeferStmt:
+			if se, ok := x.Call.Fun.(*ast.SelectorExpr); ok && (se.Sel.Name == "Unlock" || se.Sel.Name == "RUnlock") {
+				if lockName(se.X) != "" {
+					return // held until the function returns
+				}
+			}
+			handleCall(x.Call, held, true, false)
+		case *ast.GoStmt:
+			handleCall(x.Call, map[string]bool{}, deferred, true)
+		case *ast.AssignStmt:
+			for _, r := range x.Rhs {
+				walkExpr(r, held, false, deferred)
+			}
+			for _, l := range x.Lhs {
+				if id, ok := l.(*ast.Ident); ok && x.Tok == token.DEFINE {
+					_ = id
+					continue
+				}
+				walkExpr(l, held, true, deferred)
+			}
+		case *ast.IncDecStmt:
+			walkExpr(x.X, held, true, deferred)
+		case *ast.ReturnStmt:
+			for _, r := range x.Results {
+				walkExpr(r, held, false, deferred)
+			}
+		case *ast.IfStmt:
+			walkStmt(x.Init, held, deferred)
+			walkExpr(x.Cond, held, false, deferred)
+			walkStmts(x.Body.List, copySet(held), deferred)
+			if x.Else != nil {
+				walkStmt(x.Else, copySet(held), deferred)
+			}
+		case *ast.BlockStmt:
+			walkStmts(x.List, held, deferred)
+		case *ast.ForStmt:
+			walkStmt(x.Init, held, deferred)
+			walkExpr(x.Cond, held, false, deferred)
+			walkStmt(x.Post, held, deferred)
+			walkStmts(x.Body.List, copySet(held), deferred)
+		case *ast.RangeStmt:
+			walkExpr(x.X, held, false, deferred)
+			walkStmts(x.Body.List, copySet(held), deferred)
+		case *ast.SwitchStmt:
+			walkStmt(x.Init, held, deferred)
+			walkExpr(x.Tag, held, false, deferred)
+			for _, c := range x.Body.List {
+				cc := c.(*ast.CaseClause)
+				for _, e := range cc.List {
+					walkExpr(e, held, false, deferred)
+				}
+				walkStmts(cc.Body, copySet(held), deferred)
+			}
+		case *ast.TypeSwitchStmt:
+			for _, c := range x.Body.List {
+				walkStmts(c.(*ast.CaseClause).Body, copySet(held), deferred)
+			}
+		case *ast.SelectStmt:
+			for _, c := range x.Body.List {
+				walkStmts(c.(*ast.CommClause).Body, copySet(held), deferred)
+			}
+		case *ast.DeclStmt:
+			if gd, ok := x.Decl.(*ast.GenDecl); ok {
+				for _, sp := range gd.Specs {
+					if vs, ok := sp.(*ast.ValueSpec); ok {
+						for _, v := range vs.Values {
+							walkExpr(v, held, false, deferred)
+						}
+					}
+				}
+			}
+		case *ast.SendStmt:
+			walkExpr(x.Chan, held, false, deferred)
+			walkExpr(x.Value, held, false, deferred)
+		case *ast.LabeledStmt:
+			walkStmt(x.Stmt, held, deferred)
+		}
+	}
+	walkStmts = func(list []ast.Stmt, held map[string]bool, deferred bool) {
+		for _, s := range list {
+			walkStmt(s, held, deferred)
+		}
+	}
+	_ = pkgName
+	walkStmts(body.List, map[string]bool{}, false)
 }
